@@ -106,6 +106,7 @@ class Repo:
         if not os.path.isdir(self.pkg):
             raise AnalysisError(f"package directory {self.pkg} not found")
         self.modules: dict[str, Module] = {}
+        self.renamed: list = []  # (function, {current local name: name used by the rules}) - see bsa/alpha.py
         self.funcs: dict[str, Func] = {}
         self.classes: dict[str, Cls] = {}
         self.consulted: set[str] = set()
@@ -131,6 +132,9 @@ class Repo:
                 except SyntaxError as e:
                     raise AnalysisError(f"cannot parse {path}: {e}") from e
                 strip_inert(tree)
+                from . import alpha
+
+                self.renamed.extend(alpha.normalise(tree, name))
                 m = Module(name, path, src, tree, hashlib.sha256(raw).hexdigest())
                 self.modules[name] = m
                 self._index(m, tree, prefix="", cls=None, parent=None)
@@ -219,4 +223,5 @@ class Repo:
             "modules_parsed": len(self.modules),
             "functions_indexed": len(self.funcs),
             "classes_indexed": len(self.classes),
+            "locals_renamed_back": {k: m for k, m in self.renamed},
         }
